@@ -254,7 +254,18 @@ type rewriter struct {
 	edits    []edit
 	needImp  bool
 	keepUse  map[string]bool // "ioutil.ReadFile" etc, to keep imports used
+	okComm   [][2]token.Pos  // communications of selects that have a default clause
 	funcName string
+}
+
+// nonBlocking: is pos inside the communication of a select that has a default?
+func (r *rewriter) nonBlocking(pos token.Pos) bool {
+	for _, rg := range r.okComm {
+		if pos >= rg[0] && pos < rg[1] {
+			return true
+		}
+	}
+	return false
 }
 
 func (r *rewriter) off(p token.Pos) int { return r.p.Fset.Position(p).Offset }
@@ -341,13 +352,31 @@ func (r *rewriter) run() {
 		case *ast.GoStmt:
 			r.rep.Unsupported = append(r.rep.Unsupported, r.p.Fset.Position(n.Pos()).String()+": go statement (the simulator owns every goroutine; library-started goroutines are not supported)")
 		case *ast.SendStmt:
-			r.rep.Unsupported = append(r.rep.Unsupported, r.p.Fset.Position(n.Pos()).String()+": channel send (tasks would block inside the Go runtime)")
+			if !r.nonBlocking(n.Pos()) {
+				r.rep.Unsupported = append(r.rep.Unsupported, r.p.Fset.Position(n.Pos()).String()+": channel send (tasks would block inside the Go runtime)")
+			}
 		case *ast.UnaryExpr:
-			if n.Op == token.ARROW {
+			if n.Op == token.ARROW && !r.nonBlocking(n.Pos()) {
 				r.rep.Unsupported = append(r.rep.Unsupported, r.p.Fset.Position(n.Pos()).String()+": channel receive (tasks would block inside the Go runtime)")
 			}
 		case *ast.SelectStmt:
-			r.rep.Unsupported = append(r.rep.Unsupported, r.p.Fset.Position(n.Pos()).String()+": select statement")
+			// a select with a default clause never blocks: its communications
+			// are fine (a buffered channel used as a free list, say)
+			hasDefault := false
+			for _, c := range n.Body.List {
+				if cc, ok := c.(*ast.CommClause); ok && cc.Comm == nil {
+					hasDefault = true
+				}
+			}
+			if !hasDefault {
+				r.rep.Unsupported = append(r.rep.Unsupported, r.p.Fset.Position(n.Pos()).String()+": select statement without default (blocks inside the Go runtime)")
+			} else {
+				for _, c := range n.Body.List {
+					if cc, ok := c.(*ast.CommClause); ok && cc.Comm != nil {
+						r.okComm = append(r.okComm, [2]token.Pos{cc.Comm.Pos(), cc.Comm.End()})
+					}
+				}
+			}
 		case *ast.CallExpr:
 			if sel, ok := n.Fun.(*ast.SelectorExpr); ok {
 				if s := r.p.TypesInfo.Selections[sel]; s != nil && s.Kind() == types.MethodVal {
